@@ -7,12 +7,12 @@
 package fdt
 
 import (
-	"path/filepath"
 	"fmt"
 	"go/ast"
 	"go/constant"
 	"go/token"
 	"go/types"
+	"path/filepath"
 	"sort"
 	"strings"
 
